@@ -523,7 +523,10 @@ func runHostile(t fatalTB, connack []byte, stream []byte, hs hostileSetup) (labe
 		boundaries[inBase+o] = true
 	}
 	for _, o := range c.ParkNoDeadlineOffsets()[parksBefore:] {
-		if !boundaries[o] {
+		// (the application's own ReadAll of a BigMessage has no deadline by
+		// design, L9: with a stream which ends inside that payload it is
+		// the application which waits there, not the read routine)
+		if !boundaries[o] && !w.App.InReadAll() {
 			// a BigMessage ReadAll runs without deadline by design (L9); the app reads all
 			fail("the read routine waited for input at inbound offset %d (stream offset %d), inside a packet, without a read deadline although PauseTimeout is set", o, o-inBase)
 		}
